@@ -485,6 +485,63 @@ fn run_case<N: Fld>(rep: &mut Report, f: Fam, n: u32, tol: f64, n_theta: usize) 
 
 // ------------------------------------------------------------------ harness self-check of the reference
 
+/// The constructors are generic over the coefficient field; `f32` is a real field too. Order and
+/// coefficients only (single precision: rounding unit f32::EPSILON), zero tolerances 1e-6 and 1e-5.
+/// A generic-type slip that special-cases `f64` (seeded change C18-m6: the inverse transform keyed
+/// its real fast path on `TypeId::of::<f64>()`) is invisible to the f64 / Complex<f64> sweep.
+fn run_case_f32(rep: &mut Report, f: Fam, n: u32, tol: f32) {
+    let name = f.name();
+    rep.eval();
+    rep.count("f32/cells", 1);
+    let case = || J::obj().set("family", name).set("n", n as u64).set("zero_tolerance", tol as f64).set("field", "f32");
+    let res = probe::guard(|| match f {
+        Fam::Legendre => special::legendre::<f32>(n, tol),
+        Fam::Hermite => special::hermite::<f32>(n, tol),
+        Fam::Laguerre => special::laguerre::<f32>(n, tol),
+        Fam::Cheb1 => special::chebyshev::<f32>(n, tol),
+        Fam::Cheb2 => special::chebyshev_second::<f32>(n, tol),
+    });
+    let p = match res {
+        Guarded::Ok(Ok(p)) => p,
+        Guarded::Ok(Err(e)) => {
+            rep.violation(&format!("{}/f32/err", name), case(), format!("{}::<f32>({}, {:e}) returned Err({})", name, n, tol, e));
+            return;
+        }
+        Guarded::Panic(m, l) => {
+            rep.violation(&format!("{}/f32/panic", name), case(), format!("{}::<f32>({}, {:e}) panicked: '{}' at {}", name, n, tol, m, l));
+            return;
+        }
+        Guarded::Budget => return,
+    };
+    let ex = exact_f64(f, n);
+    // single precision cannot hold the leading coefficient 1/n! of high Laguerre indices above the
+    // tolerance, nor 2^n n! sized Hermite coefficients beyond its range: keep to representable cells
+    let mx = ex.iter().fold(0.0f64, |a, b| a.max(b.abs()));
+    if !(mx < 1e30) || !(ex[n as usize].abs() > 4.0 * tol as f64) {
+        rep.count("f32/cells_not_representable", 1);
+        return;
+    }
+    let ord = p.order();
+    if ord != n as usize {
+        rep.violation(&format!("{}/f32/order", name), case().set("order", ord), format!("{}::<f32>({}) has order() = {}, expected {}", name, n, ord, n));
+        return;
+    }
+    let e32 = f32::EPSILON as f64;
+    let theta = f.absolute_noise();
+    for k in 0..=n as usize {
+        let got = p.get_coefficient(k) as f64;
+        let want = ex[k];
+        let unit = e32 * (n.max(1) as f64) * (want.abs() + theta * mx);
+        let err = (got - want).abs();
+        rep.max(&format!("{}/f32/coef_err_over_unit", name), if err == 0.0 { 0.0 } else { err / unit });
+        if !(err <= KC * unit) {
+            rep.violation(&format!("{}/f32/coefficient", name), case().set("power", k).set("got", got).set("exact", want), format!("{}::<f32>({}): coefficient of x^{} is {:e}, exact {:e} (bound {:e})", name, n, k, got, want, KC * unit));
+            return;
+        }
+    }
+    rep.nontrivial(CaseHash::new("c18-f32").s(name).u(n as u64).f(tol as f64).0);
+}
+
 fn selfcheck() {
     use exact::*;
     for f in FAMS {
@@ -561,6 +618,12 @@ pub fn stages(ctx: &Ctx) -> Vec<Stage> {
             run_case::<f64>(rep, f, n, tol, n_theta);
         }
     }));
+    st.push(Stage::new("f32", (FAMS.len() * (NMAX as usize + 1) * 2) as u64, move |i, rep| {
+        let f = FAMS[(i % 5) as usize];
+        let n = ((i / 5) % (NMAX as u64 + 1)) as u32;
+        let tol = if i / 105 == 0 { 1e-6f32 } else { 1e-5f32 };
+        run_case_f32(rep, f, n, tol);
+    }));
     st
 }
 
@@ -568,6 +631,7 @@ pub fn thresholds(_ctx: &Ctx, rep: &Report) -> Vec<Threshold> {
     let mut t = vec![
         Threshold { what: "reference self-check (closed form == integer recurrence == literals) ran".into(), required: 1.0, observed: rep.counter("reference_selfcheck_passed") as f64 },
         Threshold { what: "cells (family, n, tolerance, field) enumerated".into(), required: 1050.0, observed: rep.counter("cells") as f64 },
+        Threshold { what: "single-precision cells enumerated".into(), required: 210.0, observed: rep.counter("f32/cells") as f64 },
     ];
     for f in FAMS {
         t.push(Threshold { what: format!("{} cells enumerated", f.name()), required: 210.0, observed: rep.counter(&format!("{}/cells", f.name())) as f64 });
